@@ -663,3 +663,35 @@ Proof.
   - destruct Ha as [[_ Hx]|Ha]; [discriminate|]. lia.
   - destruct (Z.eqb_spec (r_amount r) (-1)); [exact I|]. destruct Ha as [[Hx _]|Ha]; [contradiction|]. lia.
 Qed.
+
+(* ------------------------------------------------------------------ *)
+(* lstopo --of synthetic prints exactly the library export, whatever its length *)
+Lemma content_app0 l : Forall (fun b => b <> 0) l -> content (l ++ [0]) = l.
+Proof.
+  induction 1 as [|b l Hb _ IH]; [reflexivity|]. cbn [app content].
+  destruct (N.eqb_spec b 0); [contradiction|]. now rewrite IH.
+Qed.
+Lemma Forall_firstn_ {A} (P : A -> Prop) k : forall l, Forall P l -> Forall P (firstn k l).
+Proof.
+  induction k as [|k IH]; intros l H; [constructor|]. destruct l as [|x l]; [constructor|].
+  inversion H; subst. cbn [firstn]. constructor; auto.
+Qed.
+
+Lemma output_synthetic_is_export t : Forall (fun b => b <> 0) t -> output_synthetic t = t ++ NL.
+Proof.
+  intros Ht. unfold output_synthetic, output_synthetic_gen, export_into, SBUFFER. cbn [fst snd].
+  destruct (Nat.leb_spec 1024 (List.length t)) as [Hge|Hlt]; f_equal.
+  - rewrite firstn_all. now apply content_app0.
+  - rewrite firstn_all2 by lia. now apply content_app0.
+Qed.
+
+(* the variant that passes buflen = length to the second call (seeded change C20b) loses the last
+   character of every export of 1024 characters or more *)
+Lemma output_synthetic_short_second_call t : Forall (fun b => b <> 0) t -> (1024 <= List.length t)%nat ->
+  output_synthetic_gen (fun l => l) t = removelast t ++ NL.
+Proof.
+  intros Ht Hl. unfold output_synthetic_gen, export_into, SBUFFER. cbn [fst snd].
+  destruct (Nat.leb_spec 1024 (List.length t)) as [_|Hlt]; [|lia]. f_equal.
+  destruct (List.length t) as [|k] eqn:E; [lia|].
+  rewrite removelast_firstn_len, E. cbn [pred]. apply content_app0. now apply Forall_firstn_.
+Qed.
